@@ -25,7 +25,7 @@ REQUIRED_THEOREMS = ['CfVerif.C03.' + t for t in (
     'persistent_marks_eq_device', 'ext_phase_completes', 'param_table_when_connected', 'no_extended_no_queries',
     'setup_started_once', 'setup_started_once_live_counterexample', 'log_fetcher_started_once', 'version_is_devices',
     'disconnect_unregisters', 'aborted_download_is_silent', 'stale_fetchers_do_not_interfere', 'undisconnected_fetcher_interferes',
-    'ext_disconnect_aborts', 'gen_disconnect', 'lookups_agree_after_any_history', 'history_before_install_irrelevant',
+    'ext_disconnect_aborts', 'gen_disconnect', 'notification_ignored_by_ext_fetcher', 'lookups_agree_after_any_history', 'history_before_install_irrelevant',
     'downloaded_table_wf', 'cache_miss_is_download', 'cache_hit_installs', 'gen_toc_object',
     'gen_platform_reports_once', 'gen_type_tables', 'gen_log_reset_guard', 'gen_v2_threshold')]
 TRUSTED = ['harness/corr/c03.py extractor + correspondence', 'harness/sim/crazyflie_device.py (simulated device, link, sync session) and its Lean twin Spec/C03',
@@ -35,7 +35,6 @@ ASSUMPTIONS = ['what TocCache.fetch returns for a CRC is C11; here: a cached dic
                'a worker iteration of _ExtendedTypeFetcher.run that is in flight while the link is lost is not modelled (C02)',
                'one download per port and connection: replies of a previous session do not reach the fetcher (the link queue is per connection)',
                'replies are genuine device replies (possibly duplicated, stale, delayed); forged packets are only used in the correspondence',
-               'unsolicited MISC_VALUE_UPDATED during the extended-type phase is not a reply (observation in docs/C03.md)',
                'UTF-8 validity of the link-source reply is not modelled']
 RULE = ('cases = (a) every type byte x well-formed/malformed naming parts for both decoders, (b) real TocFetcher/_ExtendedTypeFetcher/Toc '
         'sessions driven packet by packet with awaited/stale/duplicated/off-channel/malformed packets for table sizes 0,1,2,3,7,254..258,300,random, '
@@ -268,6 +267,9 @@ def extract(ctx):
     g.string('extIdFmt', sc[0]['fmt'])
     g.strings('extIdArgs', sc[0]['args'])
     g.strings('extCbCompares', X.compares(ecb))
+    outer = [n for n in ecb.body if isinstance(n, ast.If)]
+    X.expect(len(outer) == 1, '_ExtendedTypeFetcher._new_packet_cb: expected one top-level if')
+    g.string('extCbGuard', ast.unparse(outer[0].test))
     em = _assign_map(ecb)
     X.expect('extended_type' in em, '_ExtendedTypeFetcher._new_packet_cb: extended_type assignment missing')
     g.string('extTypeExpr', ast.unparse(em['extended_type']))
@@ -1092,12 +1094,11 @@ def ext_session(ctx, sc, holder, dev, items, stats):
             sc.add('xpkt %d %s' % (chan, hexs(pkt)), lambda c=chan, p=pkt: holder['r'].xpkt(c, p))
             stats['xother'] += 1
         else:
-            # short / foreign misc packets, incl. an unsolicited value-updated for the awaited id (observation in docs/C03.md)
+            # short / foreign misc packets, incl. an unsolicited value-updated notification for the awaited id
             cur = outstanding if outstanding is not None else rng.randrange(0, len(items) + 1)
             pkt = rng.choice([b'', b'\x02', bytes([2, cur & 0xFF]), bytes([2, cur & 0xFF, cur >> 8]),
                               bytes([1, cur & 0xFF, cur >> 8, rng.choice([0, 1, 7])]), bytes([6, cur & 0xFF, cur >> 8, 0, 0])])
-            if len(pkt) >= 4 and outstanding is not None:
-                outstanding = None     # the real code (and the model) take any misc packet with the awaited id as the answer
+            # (fix D29: none of these is an extended-type answer, the query stays outstanding)
             sc.add('xpkt 3 %s' % hexs(pkt), lambda p=pkt: holder['r'].xpkt(3, p))
             stats['xforeign'] += 1
     sc.add('toc', lambda: show_toc(holder['r'].toc))
@@ -1301,10 +1302,10 @@ class EarlyInjector:
     """wraps a reply policy: additionally, at random exchanges from the very first one on, packets arrive that make the
     library look parameters up while the tables are not (yet) there: the unsolicited value-updated notification (2:3
     `01 id16 value`, current generation only) and late answers to reads / writes of an earlier session (2:1, 2:2).
-    plain_only: only parameters without the extended flag (a notification for an extended parameter during the
-    extended-type phase is taken as the answer to the query - known observation, docs/C03.md)"""
+    plain_only: only parameters without the extended flag (before fix D29 a notification for an extended parameter during
+    the extended-type phase was taken as the answer to the query)"""
 
-    def __init__(self, base, dev, rng, p=0.2, plain_only=True):
+    def __init__(self, base, dev, rng, p=0.2, plain_only=False):
         self.base, self.dev, self.rng, self.p, self.plain_only = base, dev, rng, p, plain_only
         self.injected = 0
 
@@ -1504,6 +1505,8 @@ def run_trial(t):
     dev = make_dev(rr, t['nlog'], t['nparam'], t['v2'], rich=t.get('rich', False))
     if mode == 'all-ports':
         pol = sim.RandomPolicy(random.Random(t['seed'] + 1), p_dup=0.25, p_delay=0.2, p_drop=0.0, p_stale=0.3)
+        if t.get('notify'):      # + value-updated notifications / late answers for ANY parameter at any time of the setup
+            pol = EarlyInjector(pol, dev, random.Random(t['seed'] + 2), p=0.35, plain_only=False)
     elif mode == 'toc-ports-drop':
         pol = sim.RandomPolicy(random.Random(t['seed'] + 1), p_dup=0.2, p_delay=0.15, p_drop=0.1, p_stale=0.25, ports=[2, 5])
     else:
@@ -1580,7 +1583,7 @@ def cache_trial(t, dev):
             first.run(until='fully_connected', max_steps=200000)       # parameter reads of the first session happened
         base = sim.RandomPolicy(random.Random(t['seed'] + 1), p_dup=0.2, p_delay=0.15, p_drop=0.0, p_stale=0.2) \
             if t.get('adversary') else sim.ReplyPolicy()
-        pol = EarlyInjector(base, dev, random.Random(t['seed'] + 2), p=t.get('p_early', 0.3), plain_only=True)
+        pol = EarlyInjector(base, dev, random.Random(t['seed'] + 2), p=t.get('p_early', 0.3), plain_only=False)
         if t.get('same_object'):
             first.close()
             first.run(max_steps=1000)
@@ -1703,8 +1706,8 @@ def search(ctx):
     for (v2, nl, npar) in trials:
         mode = rng.choice(['all-ports', 'all-ports', 'toc-ports-drop']) if max(nl, npar) < 1000 else 'all-ports'
         t = {'v2': v2, 'nlog': nl, 'nparam': npar, 'needs_resending': True if mode == 'toc-ports-drop' else rng.random() < 0.6,
-             'mode': mode, 'seed': rng.getrandbits(32), 'rich': rng.random() < 0.4}
-        ctx.count('search:' + mode)
+             'mode': mode, 'seed': rng.getrandbits(32), 'rich': rng.random() < 0.4, 'notify': mode == 'all-ports' and rng.random() < 0.5}
+        ctx.count('search:' + mode + ('+notify' if t['notify'] else ''))
         bad = run_trial(t)
         if bad:
             ctx.witness(bad[0], bad[1], t, detail=bad[2])
